@@ -10,6 +10,23 @@ PROPS = {
         modules=["contracts.strings", "lemmas.c08"],
         title="EO string encoding",
     ),
+    "C11": dict(
+        modules=["contracts.hash"],
+        title="server verification hash",
+        lift={"eolib.encrypt.server_verification_utils.server_verification_hash":
+              ["eolib.encrypt.server_verification_utils._mod"]},
+    ),
+    "C12": dict(
+        modules=["contracts.sequence", "lemmas.c12"],
+        title="sequence starts",
+    ),
+    "C13": dict(
+        modules=["contracts.sequence", "contracts.sequencer", "lemmas.c13"],
+        title="packet sequencer",
+        functions=["eolib.packet.packet_sequencer.PacketSequencer.__init__",
+                   "eolib.packet.packet_sequencer.PacketSequencer.next_sequence",
+                   "eolib.packet.packet_sequencer.PacketSequencer.set_sequence_start"],
+    ),
     "C10": dict(
         modules=["contracts.encrypt", "lemmas.c10"],
         title="encryption primitives",
